@@ -1,16 +1,24 @@
 package main
 
 import (
+	"strings"
+
 	dg "verifharness/designgen"
 )
 
 // ---- sanitising: keep a random design inside the hypotheses of the _partial theorems ----
+
+// elemHook, when set, is called on every array element attribute met by walkType.
+var elemHook func(*dg.Attr)
 
 func walkType(t *dg.Type, f func(*dg.Attr)) {
 	if t == nil {
 		return
 	}
 	if t.Elem != nil {
+		if elemHook != nil && t.Kind == "array" {
+			elemHook(t.Elem)
+		}
 		walkAttr(t.Elem, f)
 	}
 	if t.Key != nil {
@@ -58,14 +66,44 @@ func walkDesign(d *dg.Design, f func(*dg.Attr), fv func(*dg.Validation), ft func
 	}
 }
 
-// sanitize returns a copy of the design inside the main stream's envelope:
-// exclusive bounds become inclusive bounds (openapi3 emits them as numbers, kin-openapi
-// refuses the document), Bytes become String (yaml renders []byte examples as
-// integer lists, json as base64), file servers are dropped when the API declares a
-// security requirement (the document lists it on the file server operation, the
-// server does not enforce any).
+var intPrims = map[string]bool{"Int": true, "Int32": true, "Int64": true, "UInt": true, "UInt32": true, "UInt64": true}
+
+// fixInts restores Go ints in the enum values of integer typed attributes after a
+// JSON round trip (Design.Clone, replay files), which turns every number into a
+// float64; goa treats Enum(1.0) on an Int attribute differently from Enum(1).
+func fixInts(d *dg.Design) {
+	conv := func(v *dg.Validation, t *dg.Type) {
+		if v == nil || t.Kind != "prim" || !intPrims[t.Prim] {
+			return
+		}
+		for i, e := range v.Enum {
+			if f, ok := e.(float64); ok && f == float64(int(f)) {
+				v.Enum[i] = int(f)
+			}
+		}
+	}
+	walkDesign(d, func(a *dg.Attr) { conv(a.V, &a.T) }, func(*dg.Validation) {}, func(*dg.Type) {})
+	for _, ut := range d.Types {
+		conv(ut.V, &ut.Base)
+	}
+}
+
+// sanitize returns a copy of the design inside the main stream's envelope, i.e.
+// inside the hypotheses of the _partial theorems / outside the recorded findings:
+//   - exclusive bounds become inclusive bounds (openapi3 writes them as numbers);
+//   - Bytes become String (yaml renders []byte examples as integer lists, json as base64);
+//   - API level Security is pushed down to the services that declare none (the
+//     effective requirements of every method stay the same; the OpenAPI 3 top level
+//     `security` and file server operations would name an undefined scheme);
+//   - scopes are kept on OAuth2 schemes and on requirements made of OAuth2 schemes
+//     only (OpenAPI 2 writes the others into a description whose leading newline
+//     yaml.v3 drops);
+//   - at most one credential travels in the Authorization header (OpenAPI 2 would
+//     list the header twice): the others get headers of their own;
+//   - map typed query parameters become arrays (OpenAPI 2 writes `type: map`).
 func sanitize(d *dg.Design) (*dg.Design, map[string]int) {
 	c := d.Clone()
+	fixInts(c)
 	n := map[string]int{}
 	fixV := func(v *dg.Validation) {
 		if v == nil {
@@ -92,27 +130,137 @@ func sanitize(d *dg.Design) (*dg.Design, map[string]int) {
 			n["bytes_to_string"]++
 		}
 	}
+	// Enum(1, 2, 3) on the elements of an array of a sized integer type: goa accepts the
+	// design and panics while generating an example (expr.(*Array).MakeSlice appends an
+	// int to a []int32); recorded finding, witness stream
+	elemHook = func(e *dg.Attr) {
+		if e.V != nil && len(e.V.Enum) > 0 && e.T.Kind == "prim" && intPrims[e.T.Prim] && e.T.Prim != "Int" {
+			e.V = nil
+			n["enum_on_sized_int_array_element_dropped"]++
+		}
+	}
 	walkDesign(c, func(a *dg.Attr) { fixV(a.V); fixT(&a.T) }, fixV, fixT)
+	elemHook = nil
 	if len(c.Security) > 0 {
 		for _, s := range c.Services {
-			if len(s.Files) > 0 {
-				s.Files = nil
-				n["files_dropped_api_security"]++
+			if len(s.Security) == 0 {
+				s.Security = c.Security
+			}
+		}
+		c.Security = nil
+		n["api_security_pushed_down"]++
+	}
+	kind := map[string]string{}
+	for i, s := range c.Schemes {
+		kind[s.Name] = s.Kind
+		if s.Kind != "oauth2" && len(s.Scopes) > 0 {
+			c.Schemes[i].Scopes = nil
+			n["non_oauth2_scheme_scopes_dropped"]++
+		}
+	}
+	fixReqs := func(rs []dg.Requirement) {
+		for i := range rs {
+			for _, sn := range rs[i].Schemes {
+				if kind[sn] != "oauth2" && len(rs[i].Scopes) > 0 {
+					rs[i].Scopes = nil
+					n["non_oauth2_scopes_dropped"]++
+				}
+			}
+		}
+	}
+	for _, s := range c.Services {
+		fixReqs(s.Security)
+		for _, m := range s.Methods {
+			fixReqs(m.Security)
+			if m.HTTP == nil || m.Payload == nil || m.Payload.T.Kind != "object" {
+				continue
+			}
+			mappedAlready := map[string]bool{}
+			for _, l := range [][]dg.MapEntry{m.HTTP.Headers, m.HTTP.Params, m.HTTP.Cookies} {
+				for _, e := range l {
+					mappedAlready[e.Attr] = true
+				}
+			}
+			hasBasic, first := false, true
+			for _, f := range m.Payload.T.Attrs {
+				if f.A.Sec != nil && f.A.Sec.Fn == "Username" {
+					hasBasic = true
+				}
+			}
+			for _, f := range m.Payload.T.Attrs {
+				if f.A.Sec == nil || mappedAlready[f.Name] {
+					continue
+				}
+				wire := map[string]string{"APIKey": "X-Api-Key", "Token": "X-Jwt", "AccessToken": "X-Access-Token"}[f.A.Sec.Fn]
+				if wire == "" {
+					continue
+				}
+				if first && !hasBasic {
+					first = false
+					continue
+				}
+				m.HTTP.Headers = append(m.HTTP.Headers, dg.MapEntry{Attr: f.Name, Wire: wire})
+				n["credential_moved_off_authorization"]++
+			}
+			for _, e := range m.HTTP.Params {
+				for _, f := range m.Payload.T.Attrs {
+					if f.Name == e.Attr && f.A.T.Kind == "map" {
+						f.A.T = dg.ArrayOf(dg.A(dg.Prim("String")))
+						f.A.V, f.A.HasDef, f.A.Default = nil, false, nil
+						n["map_query_param_to_array"]++
+					}
+				}
 			}
 		}
 	}
 	return c, n
 }
 
+// vary rewrites the routes of a random design to reach path shapes designgen.Random
+// never draws: a trailing {*name} wildcard, an absolute route ("//..."), a trailing
+// slash, HEAD next to GET. k selects the variation.
+func vary(d *dg.Design, k int) *dg.Design {
+	c := d.Clone()
+	fixInts(c)
+	for _, s := range c.Services {
+		for _, m := range s.Methods {
+			if m.HTTP == nil || len(m.HTTP.Routes) == 0 {
+				continue
+			}
+			rs := m.HTTP.Routes
+			switch k % 4 {
+			case 0:
+				for i := range rs {
+					if j := strings.LastIndex(rs[i].Path, "/{"); j >= 0 && strings.HasSuffix(rs[i].Path, "}") && !strings.Contains(rs[i].Path[j+2:], "/") {
+						rs[i].Path = rs[i].Path[:j] + "/{*" + rs[i].Path[j+2:]
+					}
+				}
+			case 1:
+				m.HTTP.Routes = append(rs, dg.Route{Verb: rs[0].Verb, Path: "//abs/" + s.Name + rs[0].Path})
+			case 2:
+				if !strings.HasSuffix(rs[0].Path, "}") {
+					rs[0].Path += "/"
+				}
+			case 3:
+				if rs[0].Verb == "GET" && m.Result == nil {
+					m.HTTP.Routes = append(rs, dg.Route{Verb: "HEAD", Path: rs[0].Path})
+				}
+			}
+		}
+	}
+	c.Features = append(c.Features, []string{"vary_wildcard", "vary_absolute_route", "vary_trailing_slash", "vary_head"}[k%4])
+	return c
+}
+
 // ---- hand-written designs ----
 
 func obj(fs ...*dg.Field) *dg.Attr { a := dg.A(dg.Obj(fs...)); return &a }
-func prim(p string) *dg.Attr      { a := dg.A(dg.Prim(p)); return &a }
-func attrOf(t dg.Type) *dg.Attr   { a := dg.A(t); return &a }
-func me(a, w string) dg.MapEntry  { return dg.MapEntry{Attr: a, Wire: w} }
-func rt(v, p string) dg.Route     { return dg.Route{Verb: v, Path: p} }
-func str(n string) *dg.Field      { return dg.F(n, dg.Prim("String")) }
-func rstr(n string) *dg.Field     { return dg.Req(n, dg.Prim("String")) }
+func prim(p string) *dg.Attr       { a := dg.A(dg.Prim(p)); return &a }
+func attrOf(t dg.Type) *dg.Attr    { a := dg.A(t); return &a }
+func me(a, w string) dg.MapEntry   { return dg.MapEntry{Attr: a, Wire: w} }
+func rt(v, p string) dg.Route      { return dg.Route{Verb: v, Path: p} }
+func str(n string) *dg.Field       { return dg.F(n, dg.Prim("String")) }
+func rstr(n string) *dg.Field      { return dg.Req(n, dg.Prim("String")) }
 func sec(fn, scheme string) *dg.SecAttrKind {
 	return &dg.SecAttrKind{Fn: fn, Scheme: scheme}
 }
@@ -188,8 +336,6 @@ func coveringDesigns() []*dg.Design {
 			HTTP: &dg.HTTPMap{Routes: []dg.Route{rt("POST", "/list/{id}")}, Params: []dg.MapEntry{me("q", "")}, Body: &dg.BodySpec{Attrs: []string{"a", "b"}}}},
 		{Name: "allInParams", Payload: obj(rstr("id"), str("q")),
 			HTTP: &dg.HTTPMap{Routes: []dg.Route{rt("POST", "/aip/{id}")}, Params: []dg.MapEntry{me("q", "")}}},
-		{Name: "multi", Payload: obj(rstr("title"), str("note")),
-			HTTP: &dg.HTTPMap{Routes: []dg.Route{rt("POST", "/multi")}, Multipart: true}},
 	}}}})
 	// c4: responses and errors
 	{
@@ -209,11 +355,11 @@ func coveringDesigns() []*dg.Design {
 	}
 	// c5: security of every kind at every level, custom credential locations
 	{
-		schemes := []dg.Scheme{{Kind: "basic", Name: "basic_sch"}, {Kind: "apikey", Name: "key_sch"}, {Kind: "jwt", Name: "jwt_sch", Scopes: []string{"api:read", "api:write"}},
+		schemes := []dg.Scheme{{Kind: "basic", Name: "basic_sch"}, {Kind: "apikey", Name: "key_sch"}, {Kind: "jwt", Name: "jwt_sch"},
 			{Kind: "oauth2", Name: "oauth_sch", Scopes: []string{"api:read", "api:write"}}}
-		add(&dg.Design{Name: "cover_security", Schemes: schemes, Security: []dg.Requirement{{Schemes: []string{"key_sch"}}},
+		add(&dg.Design{Name: "cover_security", Schemes: schemes,
 			Services: []*dg.Service{
-				{Name: "sec", Security: []dg.Requirement{{Schemes: []string{"jwt_sch"}, Scopes: []string{"api:read"}}}, Methods: []*dg.Method{
+				{Name: "sec", Security: []dg.Requirement{{Schemes: []string{"jwt_sch"}}}, Methods: []*dg.Method{
 					{Name: "inherit", Payload: obj(secField("token", "Token", "", true), str("x")), HTTP: &dg.HTTPMap{Routes: []dg.Route{rt("POST", "/inherit")}}},
 					{Name: "basic", Security: []dg.Requirement{{Schemes: []string{"basic_sch"}}},
 						Payload: obj(secField("user", "Username", "", true), secField("pass", "Password", "", true)), HTTP: &dg.HTTPMap{Routes: []dg.Route{rt("GET", "/basic")}}},
@@ -225,13 +371,13 @@ func coveringDesigns() []*dg.Design {
 						Payload: obj(secField("key", "APIKey", "key_sch", true)), HTTP: &dg.HTTPMap{Routes: []dg.Route{rt("GET", "/key-q")}, Params: []dg.MapEntry{me("key", "k")}}},
 					{Name: "oauth", Security: []dg.Requirement{{Schemes: []string{"oauth_sch"}, Scopes: []string{"api:write"}}},
 						Payload: obj(secField("access", "AccessToken", "", true)), HTTP: &dg.HTTPMap{Routes: []dg.Route{rt("PUT", "/oauth")}}},
-					{Name: "either", Security: []dg.Requirement{{Schemes: []string{"jwt_sch"}, Scopes: []string{"api:write"}}, {Schemes: []string{"key_sch"}}},
+					{Name: "either", Security: []dg.Requirement{{Schemes: []string{"jwt_sch"}}, {Schemes: []string{"key_sch"}}},
 						Payload: obj(secField("token", "Token", "", false), secField("key", "APIKey", "key_sch", false)), HTTP: &dg.HTTPMap{Routes: []dg.Route{rt("GET", "/either")}, Params: []dg.MapEntry{me("key", "k")}}},
-					{Name: "both", Security: []dg.Requirement{{Schemes: []string{"oauth_sch", "key_sch"}, Scopes: []string{"api:read"}}},
+					{Name: "both", Security: []dg.Requirement{{Schemes: []string{"oauth_sch", "key_sch"}}},
 						Payload: obj(secField("access", "AccessToken", "", true), secField("key", "APIKey", "key_sch", true)), HTTP: &dg.HTTPMap{Routes: []dg.Route{rt("GET", "/both")}, Params: []dg.MapEntry{me("key", "k")}}},
 					{Name: "open", NoSecurity: true, HTTP: &dg.HTTPMap{Routes: []dg.Route{rt("GET", "/open")}}},
 				}},
-				{Name: "apisec", Methods: []*dg.Method{
+				{Name: "apisec", Security: []dg.Requirement{{Schemes: []string{"key_sch"}}}, Methods: []*dg.Method{
 					{Name: "inheritApi", Payload: obj(secField("key", "APIKey", "key_sch", true)), HTTP: &dg.HTTPMap{Routes: []dg.Route{rt("GET", "/inherit-api")}}},
 				}},
 			}})
@@ -285,5 +431,29 @@ func witnessDesigns() []*dg.Design {
 	ds = append(ds, &dg.Design{Name: "w_bytes", Services: []*dg.Service{{Name: "svc", Methods: []*dg.Method{
 		{Name: "m", Payload: obj(dg.Req("blob", dg.Prim("Bytes")), str("s")), Result: prim("Bytes"), HTTP: &dg.HTTPMap{Routes: []dg.Route{rt("POST", "/m")}}},
 	}}}})
+	// API level security: the OpenAPI 3 top level `security` names a scheme the components do not define
+	ds = append(ds, &dg.Design{Name: "w_apisec", Schemes: []dg.Scheme{{Kind: "basic", Name: "basic_sch"}}, Security: []dg.Requirement{{Schemes: []string{"basic_sch"}}},
+		Services: []*dg.Service{{Name: "svc", Methods: []*dg.Method{
+			{Name: "ok", Payload: obj(secField("user", "Username", "", true), secField("pass", "Password", "", true)), HTTP: &dg.HTTPMap{Routes: []dg.Route{rt("GET", "/ok")}}}}}}})
+	// scopes on a JWT requirement: OpenAPI 2 writes them into the description with a leading newline
+	ds = append(ds, &dg.Design{Name: "w_jwtscopes", Schemes: []dg.Scheme{{Kind: "jwt", Name: "jwt_sch", Scopes: []string{"api:read"}}},
+		Services: []*dg.Service{{Name: "svc", Methods: []*dg.Method{
+			{Name: "ok", Security: []dg.Requirement{{Schemes: []string{"jwt_sch"}, Scopes: []string{"api:read"}}},
+				Payload: obj(secField("token", "Token", "", true)), HTTP: &dg.HTTPMap{Routes: []dg.Route{rt("GET", "/ok")}}}}}}})
+	// two credentials in the Authorization header
+	ds = append(ds, &dg.Design{Name: "w_dupauth", Schemes: []dg.Scheme{{Kind: "jwt", Name: "jwt_sch"}, {Kind: "apikey", Name: "key_sch"}},
+		Services: []*dg.Service{{Name: "svc", Methods: []*dg.Method{
+			{Name: "ok", Security: []dg.Requirement{{Schemes: []string{"jwt_sch"}}, {Schemes: []string{"key_sch"}}},
+				Payload: obj(secField("token", "Token", "", false), secField("key", "APIKey", "key_sch", false)), HTTP: &dg.HTTPMap{Routes: []dg.Route{rt("GET", "/ok")}}}}}}})
+	// multipart request and map typed query parameter in OpenAPI 2
+	ds = append(ds, &dg.Design{Name: "w_v2types", Services: []*dg.Service{{Name: "svc", Methods: []*dg.Method{
+		{Name: "multi", Payload: obj(rstr("title"), str("note")), HTTP: &dg.HTTPMap{Routes: []dg.Route{rt("POST", "/multi")}, Multipart: true}},
+		{Name: "mq", Payload: obj(dg.F("m", dg.MapOf(dg.A(dg.Prim("String")), dg.A(dg.Prim("String"))))), HTTP: &dg.HTTPMap{Routes: []dg.Route{rt("GET", "/mq")}, Params: []dg.MapEntry{me("m", "")}}},
+	}}}})
+	// Enum with int literals on the elements of an array of Int32, in a type no method uses:
+	// the service generators never touch it, the OpenAPI 3 builder panics on its example
+	ds = append(ds, &dg.Design{Name: "w_enumarr", Types: []*dg.UserType{
+		{Name: "Unused", Base: dg.Obj(&dg.Field{Name: "xs", A: dg.A(dg.ArrayOf(dg.Attr{T: dg.Prim("Int32"), V: &dg.Validation{Enum: []any{1, 2, 3}}}))})}},
+		Services: []*dg.Service{{Name: "svc", Methods: []*dg.Method{{Name: "ok", HTTP: &dg.HTTPMap{Routes: []dg.Route{rt("GET", "/ok")}}}}}}})
 	return ds
 }
